@@ -102,6 +102,18 @@ def check_message(m, enc, acc, w, dbx=None, d=None):
             key = "non-finite-float-becomes-null"
         acc.violation(key, f"{w['definition']}: original encodes, parsed message raises {type(e).__name__}: {e}", w)
         return
+    # JSON written by hand (or by something that only kept what matters): nothing but PGN, id, addressing and, per
+    # field, id / value / raw_value - it parses, and encodes to the same bytes
+    if acc.evaluations % 3 == 0:
+        slim = {k_: parsed.get(k_) for k_ in ("PGN", "id", "source", "destination", "priority")}
+        slim["fields"] = [{"id": f_.get("id"), "value": f_.get("value"), "raw_value": f_.get("raw_value")} for f_ in parsed.get("fields", [])]
+        acc.count("hand_written_json_compared")
+        try:
+            e3 = enc.encode_actisense(NMEA2000Message.from_json(json.dumps(slim)))
+        except Exception as e:  # noqa: BLE001
+            e3 = f"{type(e).__name__}: {e}"
+        if e3 != e1:
+            acc.violation("hand-written-json-not-equivalent", f"{w['definition']}: JSON reduced to PGN, id, addressing and field id/value/raw_value gives {e3[:90]!r} instead of {e1[:90]!r}", w)
     acc.count("reencode_compared")
     if e1 != e2:
         key = "parsed-message-encodes-differently"
